@@ -137,6 +137,32 @@ def gen_history(rng, cid):
     return {'id': cid, 'kind': 'history', 'cmds': cmds, 'checks': checks}
 
 
+def targeted_histories(rng):
+    """always run: scope-restoring constructs entered with a scope set, whose body changes the scope - for every kind
+    of group / scope argument (with and without a scope part, trace id, unknown)"""
+    out = []
+    for pre in SCOPES:
+        for body_inner in ('(unset-scope)', '(set-scope %s)' % SCOPES[0], '(set-scope %s)' % SCOPES[-1]):
+            for wrap in ('(in-group "g" (do %s 1))', '(in-group "DEFAULT" (do %s 1))', '(in-group "top.u.r_" (do %s 1))',
+                         '(in-group "top." (do %s 1))', '(in-scope "top" (do %s 1))', '(in-scope "nosuch" (do %s 1))',
+                         "(in-groups '(\"g\" \"top.\") (do %s 1))", '(all-scopes (do %s 1))'):
+                n = rng.randrange(2, 5)
+                text, info = gen.simple_trace(rng, n=n, scopes=TREE)
+                cmds = [['file', 't.vcd', text], ['load', 't.vcd', 'DEFAULT']]
+                ref = RefCtx(n)
+                ref.scope = pre
+                checks = []
+                cmds.append(['evalstr', '111', f'(set-scope {pre})'])
+                cmds.append(['evalstr', '111', probe_text(ref)])
+                checks.append((len(cmds) - 1, probe_expect(ref), f'(set-scope {pre})'))
+                body = wrap % body_inner
+                cmds.append(['evalstr', '111', body])
+                cmds.append(['evalstr', '111', probe_text(ref)])
+                checks.append((len(cmds) - 1, probe_expect(ref), body))
+                out.append({'id': 0, 'kind': 'history', 'cmds': cmds, 'checks': checks})
+    return out
+
+
 def gen_run(rng, cid):
     """a history that leaves definitions, macros, aliases, scope, group and positions behind, then Wal.run"""
     n = rng.randrange(2, 7)
@@ -202,7 +228,7 @@ def run(tier, seed, replay=None):
     rep.proof = lib.compile_props(PID)
     rng = lib.rng_for(seed, PID)
     n = 100 if tier == 'quick' else 12000
-    cases = [gen_history(rng, c) for c in range(n)]
+    cases = [gen_history(rng, c) for c in range(n)] + targeted_histories(rng)
     pairs = []
     for c in range(n // 2):
         a, b = gen_run(rng, len(cases))
